@@ -29,7 +29,7 @@ def plan(tier):
     base = {"case_time_limit": 240,
             "required_classes": ["one-site-chain", "stop-at-centre", "overcomplete-bond", "rank-deficient-bond", "bond-one",
                                  "mpo", "mpdm", "mps", "variational", "sweep:to_right", "sweep:to_left", "idempotence",
-                                 "long-chain", "sector:zero-with-signed-labels", "variational:own-limit-below-schedule",
+                                 "long-chain", "sector:zero-with-signed-labels", "variational:own-limit-below-schedule", "variational:per-bond-limits-in-schedule",
                                  "ensure-canonical:explicit-tolerance-on-drifted-state", "stop-at-centre:non-canonical-state"],
             "required_counters": {"oracle": 2000, "isometry_checks": 1000}}
     if tier == "quick":
@@ -388,7 +388,7 @@ def run_case(ctx):
                 # truncated: a truncated operator can annihilate the state, and the library documents that one-site
                 # sweeps may get stuck; neither is part of the property
                 vproc = None
-                style = int(rng.integers(0, 2))
+                style = int(rng.integers(0, 3))
                 m0 = m
                 # (a schedule that ramps the limit up from below the ranks is NOT used: once a sweep has truncated, the
                 # later sweeps need not recover the lost symmetry blocks - convergence is then no theorem, see 8.2)
@@ -397,6 +397,21 @@ def run_case(ctx):
                     m0 = 1
                     vproc = [[m, 0.5], [m, 0.3], [m, 0.1]] + [[m, 0]] * 10
                     ctx.cls("variational:own-limit-below-schedule")
+                if style == 2:
+                    # the documented other form of a schedule entry: a CompressConfig, here with per-bond limits that differ
+                    # from bond to bond and suffice everywhere (Schmidt rank of the dense target plus 0..2, within the exact cap)
+                    caps = states.exact_bond_caps(gm.dims)
+                    tr = [1] + [int(np.sum(dense.schmidt(target, gm.dims, c) > 1e-10 * np.linalg.norm(target))) for c in range(1, n)] + [1]
+                    lim = [int(min(max(cap, 1), r + int(rng.integers(0, 3)))) for cap, r in zip(caps, tr)]
+                    if len(set(lim[1:-1])) > 1:
+                        ctx.cls("variational:per-bond-limits-in-schedule")
+                    nz = int(rng.integers(9, 11))        # 12 or 13 sweeps: the last one runs leftwards or rightwards
+
+                    def cfg_of():
+                        c = CompressConfig(CompressCriteria.fixed, max_bonddim=int(max(lim)))
+                        c.max_dims = np.array(lim, dtype=int)
+                        return c
+                    vproc = [[cfg_of(), 0.5], [cfg_of(), 0.3], [cfg_of(), 0.1]] + [[cfg_of(), 0] for _ in range(nz)]
                 src.compress_config = CompressConfig(CompressCriteria.fixed, max_bonddim=m0, vprocedure=vproc,
                                                      vguess_m=(max(5, int(max(o.bond_dims))), 5))
                 if max(src.bond_dims) > 5:
